@@ -3,8 +3,8 @@ package checks
 // C03 — operation results and effects follow RFC 7047 §5.1-5.2.
 
 import (
-	"regexp"
 	"fmt"
+	"regexp"
 	"sort"
 	"strings"
 
